@@ -271,3 +271,65 @@ Proof.
 Qed.
 
 End RayleighTensor.
+
+(* ---- the projected (Galerkin) solve of the implementation is exact ----------------------- *)
+Section Galerkin.
+Variable K : ordring.
+Notation "0" := (r0 K). Notation "1" := (r1 K).
+Infix "+" := (radd K). Infix "*" := (rmul K). Infix "-" := (rsub K).
+Add Ring Kring7 : (r_ring K).
+
+(* Kirchhoff tested only against the basis fields phi_0..phi_{m-1} (the equations the code solves in its vector basis) *)
+Definition projKCL (N : net K) (d : edge K -> K) (g : nat -> K) (m : nat) (phi : nat -> nat -> K) : Prop :=
+  forall a, a < m -> sumf (fun e => flux d g e * grad (phi a) e) N = 0.
+
+Lemma grad_lin m coef (phi : nat -> nat -> K) e :
+  grad (fun x => lin m coef phi x) e = sumf (fun a => nth a coef 0 * grad (phi a) e) (seq 0 m).
+Proof.
+  unfold grad, lin. rewrite <- sumf_sub. apply sumf_ext. intros a _. ring.
+Qed.
+
+Lemma proj_tests_span (N : net K) d g m phi coef :
+  projKCL N d g m phi -> sumf (fun e => flux d g e * grad (fun x => lin m coef phi x) e) N = 0.
+Proof.
+  intro H.
+  transitivity (sumf (fun e => sumf (fun a => nth a coef 0 * (flux d g e * grad (phi a) e)) (seq 0 m)) N).
+  - apply sumf_ext. intros e _. rewrite grad_lin. rewrite <- sumf_scal. apply sumf_ext. intros a _. ring.
+  - rewrite sumf_swap. transitivity (sumf (fun _ : nat => 0) (seq 0 m)); [|apply sumf_zero].
+    apply sumf_ext. intros a Ha. apply in_seq in Ha. rewrite sumf_scal. rewrite (H a) by lia. ring.
+Qed.
+
+(* If SOME corrector gs lies in the span of the basis, then ANY field of the span that satisfies the projected
+   equations (solve, pseudo-inverse, any solution of a singular projected system) gives the exact coefficient.
+   Stated for a pair of displacement components A, B. *)
+Theorem galerkin_exact (N : net K) dA dB m phi xA xB xsA xsB :
+  let gA := fun x => lin m xA phi x in let gB := fun x => lin m xB phi x in
+  let gsA := fun x => lin m xsA phi x in let gsB := fun x => lin m xsB phi x in
+  weakKCL N dA gsA -> weakKCL N dB gsB ->
+  projKCL N dA gA m phi -> projKCL N dB gB m phi ->
+  Bform N dA dB gA gB = Bform N dA dB gsA gsB.
+Proof.
+  intros gA gB gsA gsB HsA HsB HA HB.
+  (* differences lie in the span *)
+  set (yA := map (fun a => nth a xA 0 - nth a xsA 0) (seq 0 m)).
+  set (yB := map (fun a => nth a xB 0 - nth a xsB 0) (seq 0 m)).
+  assert (nthy : forall (u v : list K) a, a < m ->
+             nth a (map (fun a0 => nth a0 u 0 - nth a0 v 0) (seq 0 m)) 0 = nth a u 0 - nth a v 0).
+  { intros u v a Ha. apply (nth_map_seq (fun a0 => nth a0 u 0 - nth a0 v 0) 0 m a Ha). }
+  assert (DA : forall e, grad gA e - grad gsA e = grad (fun x => lin m yA phi x) e).
+  { intro e. unfold gA, gsA. rewrite !grad_lin. rewrite <- sumf_sub. apply sumf_ext. intros a Ha.
+    apply in_seq in Ha. unfold yA. rewrite nthy by lia. ring. }
+  assert (DB : forall e, grad gB e - grad gsB e = grad (fun x => lin m yB phi x) e).
+  { intro e. unfold gB, gsB. rewrite !grad_lin. rewrite <- sumf_sub. apply sumf_ext. intros a Ha.
+    apply in_seq in Ha. unfold yB. rewrite nthy by lia. ring. }
+  (* Bform(gA,gB) - Bform(gsA,gsB) = sum flux_A(gA) * (grad gB - grad gsB) + sum flux_B(gsB) * (grad gA - grad gsA) *)
+  assert (E : Bform N dA dB gA gB
+              = Bform N dA dB gsA gsB
+                + sumf (fun e => flux dA gA e * grad (fun x => lin m yB phi x) e) N
+                + sumf (fun e => flux dB gsB e * grad (fun x => lin m yA phi x) e) N).
+  { unfold Bform. rewrite <- !sumf_add. apply sumf_ext. intros e _.
+    rewrite <- (DA e), <- (DB e). unfold flux. ring. }
+  rewrite E. rewrite (proj_tests_span N dA gA m phi yB HA). rewrite (HsB (fun x => lin m yA phi x)). ring.
+Qed.
+
+End Galerkin.
